@@ -25,6 +25,7 @@ from sim.ref import screen608 as ref608
 core.ensure_repo_on_path()
 
 import logging  # noqa: E402
+import os  # noqa: E402
 
 import ttconv.model as m  # noqa: E402
 import ttconv.scc.reader as scc_reader  # noqa: E402
@@ -63,6 +64,8 @@ def gen_knobs(rng):
     # pop-on and paint-on may happen with a caption on screen
     "unclean": rng.choice([0.0, 0.0, 0.5, 1.0]),
     "df": df, "start": start,
+    # probability of a second mid-row code straight after the first (colour then italics = coloured italics; italics then colour = colour only)
+    "mid2": rng.choice([0.0, 0.3, 0.6]),
     "chan": {"double": rng.random() < 0.7, "null": rng.choice([0.0, 0.0, 0.1, 0.3]), "ch2": rng.choice([0.0, 0.0, 0.1, 0.3]),
              "parity_off": rng.choice([0.0, 0.0, 0.5, 1.0]), "line_len": rng.choice([6, 12, 20, 40, 1000]), "split": rng.choice([0.0, 0.0, 0.5, 1.0])},
     "chan2": {"double": rng.random() < 0.5, "null": rng.choice([0.0, 0.2]), "ch2": rng.choice([0.0, 0.2]), "parity_off": rng.choice([0.0, 1.0]),
@@ -454,10 +457,6 @@ def valid_script(ops, allow_unclean=True):
       if mode is None or not have_pos:
         return False
       if is_mid:
-        if prev_mid:
-          return False
-        if u[1] < 0 and colour != 0:
-          return False
         if u[1] >= 0:
           colour = u[1]
       if mode == "pop":
